@@ -312,7 +312,15 @@ class StoreWorld(WorldBase):
         kw = {'max_persist': mp}
         if f.fmt != 'zip_pickle' or f.cfg is not None:
             kw['config'] = f.cfg
+        caller_dict = None
+        if isinstance(f.cfg, sf.StoreConfigMap) and not self.config.get('workers') and not self.config.get('int_labels') and self.step_no % 2 == 0:
+            # the per-label configuration given as the caller's own dict, which the caller empties right after the call
+            caller_dict = {lab: f.cfg[lab] for lab in f.labels}
+            kw['config'] = caller_dict
         st, bus = call(getattr(sf.Bus, 'from_' + f.fmt), f.path, **kw)
+        if caller_dict is not None:
+            caller_dict.clear()
+            self.fault('caller-cleared-its-config-dict-after-opening')
         if st == 'raise':
             if f.cur in ('orig', 'alt'):
                 raise Violation('C17.faithful', site, self._cls(f, mp), f'opening an intact store raised {type(bus).__name__}: {bus}')
